@@ -52,11 +52,16 @@ def schema_reports(pic_text, usage_name):
     # data names rotate through a pool that includes names beginning with a USAGE keyword (explicit USAGE must win)
     _N[0] += 1
     FLD = NAMES[_N[0] % len(NAMES)]
-    text = ("       01  REC.\n" f"           05  {FLD}\n"
-            f"               PIC {pic_text}\n               USAGE {usage_name}.\n")
+    h = _N[0] % 12
+    pic_kw = ["PIC", "PICTURE", "PIC IS", "PICTURE IS"][h % 4]
+    usage_kw = ["USAGE", "USAGE IS", ""][h // 4]
+    # the record of interest is the SECOND 01; the first declares the same data name with another picture
+    text = ("       01  PREV.\n" f"           05  {FLD} PIC X(7).\n"
+            "       01  REC.\n" f"           05  {FLD}\n"
+            f"               {pic_kw} {pic_text}\n               {usage_kw} {usage_name}.\n")
     state = {}
     def load():
-        (js,) = list(schema_iter(io.StringIO(text)))
+        (_prev, js) = list(schema_iter(io.StringIO(text)))
         state["js"] = js
         state["schema"] = SchemaMaker.from_json(js)
         return 0
